@@ -11,6 +11,11 @@ var commonAssumptions = []string{
 }
 
 func init() {
+	property(&Property{ID: "C18",
+		Rules: []string{"S5", "S1.yson", "S1", "N3", "CMP.order"},
+		Explanation: "Decides the escaping and dispatch structure of the YSON writer/reader, not the equality of round-tripped values. Decided: every dynamic string the writer interpolates is quoted (S5); the writer's primitive types, the importer's cases and crdt.NewPrimitive agree, every element kind is written, imported and parsed, every constructor the writer emits has a reader case (S1.yson, S1); no unchecked type assertion in the parse closure (N3); compaction compares the rebuilt content before replacing the log (CMP.order). Known findings (genuine, recorded, not repaired): the reader rewrites the whole input textually before tokenising, so constructor-like text and ')' inside string literals are corrupted (F8b), and a user object with a string member \"type\" is read as a typed value (F8d). Not decided: numeric round-trip (float64 vs int), dedup-counter state (F19).",
+		Assumptions: commonAssumptions,
+	})
 	property(&Property{ID: "C20",
 		Rules: []string{"CS.ensure", "CS.mongo", "L5", "O2.cache", "L4c"},
 		Explanation: "Decides the bookkeeping structure of the caches, not the range arithmetic. Decided: ChangeStore fetches exactly the ranges calcMissingRanges returned for the requested interval, records a range only after its fetch succeeded, inserts what it fetched, scans [from, to] in ServerSeq order, merges adjacent ranges with To = max, and skips a cached range only when it does not overlap (CS.ensure); ranges and tree are touched only under the store's mutex (L5); the rebuilt-document cache is used only when not newer than requested, hands out and stores deep copies (O2.cache) and is populated only under the document lock, so compaction's invalidation cannot be overtaken (L4c); every MongoDB method that writes a cached collection touches the bound cache (CS.mongo — analysed only, MongoDB cannot run here). Not decided: calcMissingRanges/mergeAdjacentRanges arithmetic beyond the listed relations; LRU expiry.",
